@@ -423,6 +423,97 @@ def c16_8(ctx):
     return out
 
 
+def c16_10(ctx):
+    """the checksum is compared as written: the parser neither matches case-insensitively nor folds the case of the captured checksum
+    (every single-character alteration must be detected, and an upper-cased letter is an alteration)"""
+    spec = "descriptor:P2WSHSortedMulti.parse"
+    mod, fn = rl.get(ctx, spec)
+    out = []
+    calls = [c for c in ast.walk(fn) if isinstance(c, ast.Call) and call_name(c) in ("match", "fullmatch", "search", "compile") and dotted(c.func.value if isinstance(c.func, ast.Attribute) else c.func) == "re"]
+    if not calls:
+        raise AnalysisError("P2WSHSortedMulti.parse: regular expression call not found")
+    for c in calls:
+        flags = list(c.args[2:]) + [k.value for k in c.keywords if k.arg == "flags"]
+        ftxt = " ".join(ast.unparse(f) for f in flags)
+        pat = Folder(ctx.repo, mod.name).fold(c.args[0]) if c.args else None
+        inline = isinstance(pat, str) and "(?i" in pat
+        if "IGNORECASE" in ftxt or re.search(r"\bre\.I\b", ftxt) or inline:
+            out.append(ctx.bad(spec, "the descriptor is matched case-insensitively (`%s`): `#T0v98kwu` for `#t0v98kwu`, or `WSH(` for `wsh(`, is accepted -- a single altered "
+                                     "character goes undetected" % (ftxt or "(?i)"), c, mod, key="case-sensitive"))
+        else:
+            out.append(ctx.ok(spec, "the regular expression is matched case-sensitively", c, mod, key="case-sensitive"))
+    cfg = cfg_of(fn)
+    rets = [n for n in cfg.returns() if n.ast is not None and isinstance(n.ast.value, ast.Call)]
+    for n in rets:
+        kw = {k.arg: k.value for k in n.ast.value.keywords}
+        if "checksum" in kw:
+            ex = expand(fn, n.id, kw["checksum"], depth=6)
+            folds = [x.func.attr for x in ast.walk(ex) if isinstance(x, ast.Call) and isinstance(x.func, ast.Attribute) and x.func.attr in ("lower", "upper", "casefold", "swapcase", "title")]
+            # the same for definitions reaching through if-arms (expand stops at joins): look at every assignment to the name
+            nm = kw["checksum"].id if isinstance(kw["checksum"], ast.Name) else None
+            if nm:
+                for st in ast.walk(fn):
+                    if isinstance(st, ast.Assign) and any(isinstance(t, ast.Name) and t.id == nm for t in st.targets):
+                        folds += [x.func.attr for x in ast.walk(st.value) if isinstance(x, ast.Call) and isinstance(x.func, ast.Attribute) and x.func.attr in ("lower", "upper", "casefold", "swapcase", "title")]
+            if folds:
+                out.append(ctx.bad(spec, "the captured checksum is case-folded (.%s()) before it is verified: an upper-cased checksum character is accepted" % folds[0], n.ast, mod,
+                                   key="checksum-verbatim"))
+            else:
+                out.append(ctx.ok(spec, "the captured checksum reaches the verifying constructor as written", n.ast, mod, key="checksum-verbatim"))
+    return out
+
+
+def c16_11(ctx):
+    """PARALLEL LISTS: two lists filled side by side in one loop stay aligned.  When one of them is re-ordered afterwards (sorted by
+    xpub) and the other is not, pairing them up again (`zip`) matches each key record with another record's key: the address is not
+    the script over each cosigner's own child key, and depends on the order the records were supplied in"""
+    mod = ctx.repo.module("descriptor")
+    out = []
+    pairs = 0
+    for qn, fn in mod.functions.items():
+        for lp in [x for x in ast.walk(fn) if isinstance(x, ast.For)]:
+            apps = {}
+            for c in ast.walk(lp):
+                if isinstance(c, ast.Call) and isinstance(c.func, ast.Attribute) and c.func.attr == "append" and isinstance(c.func.value, ast.Name):
+                    apps[c.func.value.id] = c
+            if len(apps) < 2:
+                continue
+            resorted = set()
+            for st in ast.walk(fn):
+                if isinstance(st, ast.Assign) and len(st.targets) == 1 and isinstance(st.targets[0], ast.Name) and st.targets[0].id in apps \
+                        and isinstance(st.value, ast.Call) and call_name(st.value) in ("sorted", "reversed") and st.value.args and dotted(st.value.args[0]) == st.targets[0].id:
+                    resorted.add(st.targets[0].id)
+                elif isinstance(st, ast.Expr) and isinstance(st.value, ast.Call) and isinstance(st.value.func, ast.Attribute) and st.value.func.attr in ("sort", "reverse") \
+                        and isinstance(st.value.func.value, ast.Name) and st.value.func.value.id in apps:
+                    resorted.add(st.value.func.value.id)
+            stored = {}
+            for st in ast.walk(fn):
+                if isinstance(st, ast.Assign) and isinstance(st.value, ast.Name) and st.value.id in apps:
+                    for t in st.targets:
+                        if isinstance(t, ast.Attribute) and dotted(t.value) == "self":
+                            stored[st.value.id] = t.attr
+            names = sorted(apps)
+            for i, a in enumerate(names):
+                for b in names[i + 1:]:
+                    if a in stored and b in stored:
+                        pairs += 1
+                        if (a in resorted) != (b in resorted):
+                            # are the two attributes paired up positionally anywhere?
+                            zipped = None
+                            for qn2, fn2 in mod.functions.items():
+                                for c in ast.walk(fn2):
+                                    if isinstance(c, ast.Call) and call_name(c) == "zip" and {"self." + stored[a], "self." + stored[b]} <= {ast.unparse(x) for x in c.args}:
+                                        zipped = (qn2, c)
+                            if zipped:
+                                s_, u_ = (a, b) if a in resorted else (b, a)
+                                out.append(ctx.bad("descriptor:" + qn, "`%s` and `%s` are filled side by side, then only `%s` is re-ordered, and %s pairs them up again with `%s`: "
+                                                                     "every key record is matched with another record's key" % (a, b, s_, zipped[0], ast.unparse(zipped[1])[:60]),
+                                                   zipped[1], mod, key="parallel-lists:%s+%s" % (a, b)))
+    if not out:
+        out.append(ctx.ok("descriptor:*", "no two lists built side by side are re-ordered separately and zipped again (%d stored pair(s) inspected)" % pairs, key="parallel-lists"))
+    return out
+
+
 def c16_9(ctx):
     """the SLIP-132 version tables decide the network of every key record (and with it xpub text and address prefix)"""
     from rules.C08 import c08_5
@@ -439,5 +530,7 @@ OBLIGATIONS = [
     ("C16.7", "RANGE accept-set", c16_7),
     ("C16.8", "REGEX AST", c16_8),
     ("C16.9", "TABLE", c16_9),
+    ("C16.10", "REGEX flags + verbatim", c16_10),
+    ("C16.11", "PARALLEL LISTS", c16_11),
 ]
 FLOORS = {"C16.1": 5, "C16.2": 2, "C16.3": 3, "C16.4": 4, "C16.5": 3}
